@@ -48,13 +48,15 @@ type Msg45 struct {
 }
 
 type Op45 struct {
-	Op     string   `json:"op"` // send | exchange | deliver | replay | reset | clock | bump | probe
+	Op     string   `json:"op"` // send | exchange | deliver | flush | impersonate | replay | reset | clock | bump | probe
 	From   int      `json:"from,omitempty"`
 	To     int      `json:"to,omitempty"`
 	Msg    *Msg45   `json:"msg,omitempty"`
 	Forge  string   `json:"forge,omitempty"` // the handshake packet answering the challenge is hand-written with this record defect
 	Pick   int      `json:"pick,omitempty"`
-	Mode   string   `json:"mode,omitempty"` // ok | dup | drop | tamper | cut | extend | misaddr | spoof
+	Mode   string   `json:"mode,omitempty"`  // ok | dup | drop | tamper | cut | extend | misaddr | spoof
+	Defer  bool     `json:"defer,omitempty"` // deliver: if this is a WHOAREYOU, the handshake reply is sent later (op flush)
+	Seed   uint64   `json:"seed,omitempty"`
 	Region int      `json:"region,omitempty"`
 	Pos    int      `json:"pos,omitempty"`
 	Mask   byte     `json:"mask,omitempty"`
@@ -111,7 +113,7 @@ func Gen45(r *simcore.Rand, tier string) any {
 	lossRate := []float64{0, 0.05, 0.25}[r.Intn(3)]
 	for i := 0; i < nops; i++ {
 		op := Op45{}
-		switch r.Pick(14, 14, 40, 6, 3, 6, 3, 6) {
+		switch r.Pick(14, 14, 40, 6, 3, 6, 3, 6, 6, 3) {
 		case 0:
 			op.Op = "send"
 			op.From, op.To = pair()
@@ -146,6 +148,7 @@ func Gen45(r *simcore.Rand, tier string) any {
 			case x < lossRate+tamperRate+0.08:
 				op.Mode = "dup"
 			}
+			op.Defer = r.Bool(0.3)
 		case 3:
 			op.Op = "replay"
 			op.Pick = r.Intn(1 << 16)
@@ -161,6 +164,14 @@ func Gen45(r *simcore.Rand, tier string) any {
 		case 7:
 			op.Op = "probe"
 			op.Probe = genProbe45(r)
+		case 8:
+			op.Op = "flush"
+			op.From = r.Intn(n)
+		case 9:
+			op.Op = "impersonate"
+			op.From, op.To = pair()
+			op.Seed = r.Uint64()
+			op.Forge = []string{"other-identity", "other-identity", "control"}[r.Intn(3)]
 		}
 		p.Ops = append(p.Ops, op)
 	}
@@ -222,19 +233,28 @@ type node45 struct {
 	sess    map[int]int // model: peer index -> session id held (0 none)
 	sentAt  map[*v5wire.Whoareyou]mclock.AbsTime
 	inbox   int
+	// handshake replies whose sending was put off (other datagrams are decoded in between)
+	deferred []*deferred45
+}
+
+type deferred45 struct {
+	c     *call45
+	p     *v5wire.Whoareyou
+	cdata []byte // challenge data as decoded, copied at decode time
 }
 
 type world45 struct {
-	t        *testing.T
-	res      *simcore.Result
-	clock    *mclock.Simulated
-	nodes    []*node45
-	history  []*pkt45
-	inflight []int
-	nextSess int
-	log      simcore.Hash64
-	viol     *simcore.Violation
-	bumpN    int
+	t         *testing.T
+	res       *simcore.Result
+	clock     *mclock.Simulated
+	nodes     []*node45
+	history   []*pkt45
+	inflight  []int
+	nextSess  int
+	log       simcore.Hash64
+	viol      *simcore.Violation
+	bumpN     int
+	deferNext bool
 }
 
 func (w *world45) fail(v *simcore.Violation) {
@@ -330,6 +350,18 @@ func (w *world45) deliver(g *pkt45, to int, fromAddr string, raw []byte, pristin
 	sender := w.nodes[g.from]
 	chBefore := r.codec.CurrentChallenge(sender.id, fromAddr)
 	now := w.clock.Now()
+	if held := r.deferred; len(held) > 0 {
+		// handshake replies put off earlier go out once this datagram has been decoded
+		defer func() {
+			if w.viol == nil && len(r.deferred) >= len(held) {
+				r.deferred = r.deferred[len(held):]
+				for _, d := range held {
+					w.res.Probe("deferred-handshake-sent")
+					w.sendHandshake(r, d)
+				}
+			}
+		}()
+	}
 	src, n, p, err := r.codec.Decode(raw, fromAddr)
 	kind := "nil"
 	if p != nil {
@@ -474,7 +506,8 @@ func (w *world45) deliver(g *pkt45, to int, fromAddr string, raw []byte, pristin
 	case *v5wire.Unknown:
 		w.handleUnknown(r, src, fromAddr, p)
 	case *v5wire.Whoareyou:
-		w.handleWhoareyou(r, p)
+		// the challenge data the codec handed out, as of now (a later Decode must not change it)
+		w.handleWhoareyou(r, p, append([]byte{}, p.ChallengeData...), w.deferNext)
 	default:
 		r.inbox++
 		if n != nil {
@@ -517,7 +550,7 @@ func (w *world45) handleUnknown(r *node45, src enode.ID, fromAddr string, p *v5w
 	}
 }
 
-func (w *world45) handleWhoareyou(r *node45, p *v5wire.Whoareyou) {
+func (w *world45) handleWhoareyou(r *node45, p *v5wire.Whoareyou, cdata []byte, later bool) {
 	c := r.pending[p.Nonce]
 	if c == nil {
 		w.res.Probe("challenge-without-call")
@@ -527,10 +560,23 @@ func (w *world45) handleWhoareyou(r *node45, p *v5wire.Whoareyou) {
 		w.res.Probe("challenge-twice")
 		return
 	}
-	dst := w.nodes[c.to]
 	c.hsCount++
 	p.Node = r.known[c.to]
 	delete(r.pending, p.Nonce)
+	d := &deferred45{c: c, p: p, cdata: cdata}
+	if later {
+		r.deferred = append(r.deferred, d)
+		w.res.Probe("handshake-reply-deferred")
+		return
+	}
+	w.sendHandshake(r, d)
+}
+
+// sendHandshake answers a decoded challenge (possibly after other packets were decoded
+// by the same codec in between).
+func (w *world45) sendHandshake(r *node45, d *deferred45) {
+	c, p := d.c, d.p
+	dst := w.nodes[c.to]
 	var record []byte
 	if p.RecordSeq < r.ln.Node().Seq() {
 		record, _ = rlp.EncodeToBytes(r.ln.Node().Record())
@@ -544,8 +590,8 @@ func (w *world45) handleWhoareyou(r *node45, p *v5wire.Whoareyou) {
 		} else {
 			rec = forgeRecord(r, c.forge, w)
 		}
-		raw := forgeHandshake(r, dst, signKey, p.ChallengeData, rec, encMsg(c.msg))
-		w.put(&pkt45{from: r.idx, to: c.to, raw: raw, kind: "handshake", msg: c.msg, sess: w.nextSess, cdata: append([]byte{}, p.ChallengeData...), record: rec, forge: c.forge})
+		raw := forgeHandshake(r.id, dst, signKey, d.cdata, rec, encMsg(c.msg))
+		w.put(&pkt45{from: r.idx, to: c.to, raw: raw, kind: "handshake", msg: c.msg, sess: w.nextSess, cdata: d.cdata, record: rec, forge: c.forge})
 		return
 	}
 	enc, nonce, err := r.codec.Encode(dst.id, dst.addr, c.msg, p)
@@ -555,7 +601,93 @@ func (w *world45) handleWhoareyou(r *node45, p *v5wire.Whoareyou) {
 	}
 	r.sess[c.to] = w.nextSess
 	r.pending[nonce] = c
-	w.put(&pkt45{from: r.idx, to: c.to, raw: enc, kind: "handshake", msg: c.msg, sess: w.nextSess, cdata: append([]byte{}, p.ChallengeData...), record: record, nonce: nonce})
+	w.put(&pkt45{from: r.idx, to: c.to, raw: enc, kind: "handshake", msg: c.msg, sess: w.nextSess, cdata: d.cdata, record: record, nonce: nonce})
+}
+
+func (w *world45) flush(r *node45) {
+	ds := r.deferred
+	r.deferred = nil
+	for _, d := range ds {
+		w.res.Probe("deferred-handshake-sent")
+		w.sendHandshake(r, d)
+	}
+}
+
+// impersonate: node m, from its own address, claims to be another identity A that the
+// receiver has no record of. It provokes a challenge with a hand-written random packet
+// carrying A's id and answers it with a handshake whose header says A but whose record,
+// identity proof and ephemeral key are m's own. It must never be accepted as A.
+// Control: the same exchange with a fresh identity used consistently must be accepted.
+func (w *world45) impersonate(op *Op45) {
+	m, r := w.nodes[op.From], w.nodes[op.To]
+	akey, err := crypto.ToECDSA(crypto.Keccak256(binary.BigEndian.AppendUint64([]byte("impersonated"), op.Seed)))
+	if err != nil {
+		return
+	}
+	aid := enode.PubkeyToIDV4(&akey.PublicKey)
+	control := op.Forge == "control"
+	raw := forgeRandomPacket(aid, r.id)
+	src, _, p, err := r.codec.Decode(raw, m.addr)
+	up, ok := p.(*v5wire.Unknown)
+	if err != nil || !ok || src != aid {
+		w.fail(simcore.Violf("random-packet", "hand-written random packet decoded to %v err=%v", p, err))
+		return
+	}
+	if r.codec.CurrentChallenge(aid, m.addr) != nil {
+		return // (same made-up identity twice)
+	}
+	ch := &v5wire.Whoareyou{Nonce: up.Nonce}
+	crand.Read(ch.IDNonce[:])
+	if _, _, err := r.codec.Encode(aid, m.addr, ch, nil); err != nil {
+		w.fail(simcore.Violf("encode-failed", "encoding a WHOAREYOU failed: %v", err))
+		return
+	}
+	r.sentAt[ch] = w.clock.Now()
+	w.bumpN++
+	signKey, recKey := m.key, m.key
+	if control {
+		signKey, recKey = akey, akey
+	}
+	rec := refSignRecord(recKey, rlpUint(uint64(1000+w.bumpN)), basePairs(recKey, []refPair{{"ip", rlpString([]byte{198, 51, 100, byte(10 + m.idx)})}, {"udp", rlpUint(30303)}}))
+	msg := &v5wire.Ping{ReqID: []byte{0xa1}, ENRSeq: 7}
+	hs := forgeHandshake(aid, r, signKey, ch.ChallengeData, rec, encMsg(msg))
+	src, n, p, err := r.codec.Decode(hs, m.addr)
+	w.log = w.log.String("impersonate").String(fmt.Sprint(err))
+	w.res.Events++
+	established := r.codec.SessionNode(aid, m.addr) != nil
+	if control {
+		if err != nil || !isMessage(p) || n == nil || n.ID() != aid || !established {
+			w.fail(simcore.Violf("handshake-rejected", "a well-formed hand-written handshake from a fresh identity (no record known to the receiver) was not accepted: %v err=%v", p, err))
+			return
+		}
+		w.res.Probe("fresh-identity-handshake-accepted")
+		return
+	}
+	w.res.Fault("handshake-claiming-other-identity")
+	if (err == nil && isMessage(p)) || established {
+		w.fail(simcore.Violf("impersonation-accepted", "node %d accepted a handshake whose header claims source id %x but whose record, identity proof and keys are node %d's (%x): decoded %v, node %v, session stored for the claimed id: %v",
+			r.idx, aid[:6], m.idx, m.id[:6], p != nil && err == nil, n != nil, established))
+	}
+}
+
+// forgeRandomPacket is a hand-written ordinary message packet with random content.
+func forgeRandomPacket(srcID, dstID enode.ID) []byte {
+	var iv [16]byte
+	var nonce [12]byte
+	body := make([]byte, 20)
+	crand.Read(iv[:])
+	crand.Read(nonce[:])
+	crand.Read(body)
+	head := append([]byte{}, iv[:]...)
+	head = append(head, "discv5"...)
+	head = binary.BigEndian.AppendUint16(head, 1)
+	head = append(head, 0)
+	head = append(head, nonce[:]...)
+	head = binary.BigEndian.AppendUint16(head, 32)
+	head = append(head, srcID[:]...)
+	mblk, _ := aes.NewCipher(dstID[:16])
+	cipher.NewCTR(mblk, iv[:]).XORKeyStream(head[16:], head[16:])
+	return append(head, body...)
 }
 
 const staticHeaderSize = 23 // protocol id 6, version 2, flag 1, nonce 12, authsize 2
@@ -617,7 +749,9 @@ func (w *world45) deliverOp(op *Op45) {
 			how = "dup"
 			w.res.Fault("duplicate")
 		}
+		w.deferNext = op.Defer
 		w.deliver(g, g.to, g.fromAddr, g.raw, true, how)
+		w.deferNext = false
 	case "tamper", "cut", "extend":
 		w.deliver(g, g.to, g.fromAddr, tamper45(g.raw, op), false, op.Mode)
 	case "misaddr":
@@ -646,6 +780,7 @@ func (w *world45) drain(limit int) {
 func (w *world45) timeoutCalls() {
 	for _, n := range w.nodes {
 		n.pending = map[v5wire.Nonce]*call45{}
+		n.deferred = nil
 	}
 }
 
@@ -735,6 +870,7 @@ func Run45(t *testing.T, pl any) *simcore.Result {
 				n.codec = v5wire.NewCodec(n.ln, n.key, w.clock, nil)
 				n.sess = map[int]int{}
 				n.pending = map[v5wire.Nonce]*call45{}
+				n.deferred = nil
 				w.res.Fault("session-reset")
 			case "clock":
 				w.clock.Run(time.Duration(op.MS) * time.Millisecond)
@@ -747,6 +883,12 @@ func Run45(t *testing.T, pl any) *simcore.Result {
 				w.bumpN++
 				n.ln.Set(enr.WithEntry("x", uint64(w.bumpN)))
 				n.ln.Node()
+			case "flush":
+				w.flush(w.nodes[op.From])
+			case "impersonate":
+				if op.From != op.To {
+					w.impersonate(op)
+				}
 			case "probe":
 				if v := runProbe45(op.Probe, res); v != nil {
 					w.fail(v)
@@ -798,7 +940,7 @@ func Run45(t *testing.T, pl any) *simcore.Result {
 
 // ---- a hand-written handshake packet (independent implementation of the wire spec)
 
-func forgeHandshake(src, dst *node45, signKey *ecdsa.PrivateKey, cdata, record, msgPT []byte) []byte {
+func forgeHandshake(srcID enode.ID, dst *node45, signKey *ecdsa.PrivateKey, cdata, record, msgPT []byte) []byte {
 	eph, err := crypto.GenerateKey()
 	if err != nil {
 		simcore.Harnessf("forge: %v", err)
@@ -818,7 +960,7 @@ func forgeHandshake(src, dst *node45, signKey *ecdsa.PrivateKey, cdata, record, 
 	secret := make([]byte, 33)
 	secret[0] = 0x02 | byte(sy.Bit(0))
 	sx.FillBytes(secret[1:])
-	info := append([]byte("discovery v5 key agreement"), src.id[:]...)
+	info := append([]byte("discovery v5 key agreement"), srcID[:]...)
 	info = append(info, dst.id[:]...)
 	kdf := hkdf.New(sha256.New, secret, cdata, info)
 	initiatorKey := make([]byte, 16)
@@ -828,7 +970,7 @@ func forgeHandshake(src, dst *node45, signKey *ecdsa.PrivateKey, cdata, record, 
 	var nonce [12]byte
 	crand.Read(iv[:])
 	crand.Read(nonce[:])
-	auth := append([]byte{}, src.id[:]...)
+	auth := append([]byte{}, srcID[:]...)
 	auth = append(auth, 64, 33)
 	auth = append(auth, sig...)
 	auth = append(auth, ephpub...)
